@@ -137,6 +137,13 @@ func c05Gen(g *core.Gen) {
 			g.Emit(&c05Case{Sizes: []int{65536*n - 3}, Names: []string{"big"}, Slice: 65536, Blocks: 2, G: gg})
 		}
 	}
+	// look-alike inputs: equal length, identical first 16 KiB, different tails (2 and 3 files, listed in both orders by the reversal in Run)
+	for _, nf := range []int{2, 3} {
+		for _, gg := range []int{1, 3} {
+			g.Emit(&c05Case{Sizes: []int{17000, 17000, 17000}[:nf], Names: c05Names(nf, 1), Slice: 1000, Blocks: 3, G: gg, Class: "lookalike"})
+			g.Emit(&c05Case{Sizes: []int{16385, 16385, 16385}[:nf], Names: c05Names(nf, 2), Slice: 4, Blocks: 2, G: gg, Class: "lookalike"})
+		}
+	}
 	// content classes
 	for _, cl := range []string{"zero", "periodic", "dupslice", "trailzero"} {
 		g.Emit(&c05Case{Sizes: []int{13, 8, 21}, Names: c05Names(3, 1), Slice: 4, Blocks: 4, G: 2, Class: cl})
@@ -158,6 +165,14 @@ func c05Gen(g *core.Gen) {
 				for _, gg := range []int{1, 3} {
 					g.Emit(&c05Case{Sizes: []int{2*s + 3, s, 5*s - 1}, Names: c05Names(3, p+prior), Slice: s, Blocks: p, G: gg, Prior: prior})
 				}
+			}
+		}
+	}
+	// low-entropy inputs (all-zero slices, zero tails) created right after a Create with another slice size over zero content
+	for _, prior := range []int{7, 8} {
+		for _, cl := range []string{"zero", "trailzero", "periodic", "dupslice"} {
+			for _, s := range []int{4, 16, 64, 2000} {
+				g.Emit(&c05Case{Sizes: []int{3*s + 1, 2 * s, 5*s - 1}, Names: c05Names(3, prior), Slice: s, Blocks: 2, G: 2, Class: cl, Prior: prior})
 			}
 		}
 	}
@@ -225,19 +240,29 @@ func c05Run(ci interface{}, r *core.Rec) {
 				ins = append(ins, "/e/absent")
 			case 4:
 				blocks = 70000
+			case 7, 8:
+				// inputs with all-zero slices, created with ANOTHER slice size than the judged Create uses
+				pfs.Put("/e/z", make([]byte, 50))
+				ins = append(ins, "/e/z")
 			case 5:
 				pfs.Put("/e/p1", scen.Content("uniq", r.Seed, 42, c.Slice, c.Slice))
 				ins = append(ins, "/e/p1")
 			}
 			var perr error
 			if ppi := core.Catch(func() {
-				perr = par2.VerifCreate(pfs, "/e/t.par2", ins, par2.CreateOptions{SliceByteCount: c.Slice, NumParityShards: blocks, NumGoroutines: c.G})
+				ps := c.Slice
+				if kind == 7 {
+					ps = 8
+				} else if kind == 8 {
+					ps = 4 * c.Slice
+				}
+				perr = par2.VerifCreate(pfs, "/e/t.par2", ins, par2.CreateOptions{SliceByteCount: ps, NumParityShards: blocks, NumGoroutines: c.G})
 			}); ppi != nil {
 				r.Violate("create-panic:"+ppi.Frame, ppi.Value+"\n"+ppi.Stack)
 			}
 			r.AddTransitions(1)
 			r.Outcome(fmt.Sprintf("prior %d %s", kind, errClass(perr)))
-			if kind != 5 && perr == nil {
+			if kind != 5 && kind != 7 && kind != 8 && perr == nil {
 				r.Count("prior_create_unexpectedly_succeeded", 1)
 			}
 		}
@@ -392,7 +417,7 @@ func init() {
 	core.Register(&core.Prop{
 		ID:    "C05",
 		Level: "model_checking",
-		Rule: "(plus the staged exported API behind Create: EVERY sequence of <=8 (thorough 9) operations from {LoadFileData, ComputeParityData, Write, replace input a by a shorter / longer / its original content, delete / restore input b} on ONE Encoder object (on the owned in-memory filesystem through a constructor hook; <=5 (thorough 7) operations also through the exported constructor on a real directory); a Write is judged iff the latest load attempt succeeded and a compute followed it - then it must succeed and the files must be a conformant set for the contents loaded last; LoadFileData must fail iff an input is missing; sequences are not merged by model state, since the point is state hidden in the object) (in addition, histories within one process: this Create preceded by a Create that fails at one of four stages - empty input, non-ASCII name, missing input, too many blocks - or by a successful Create of other inputs, or both, with garbage collection off in between so that pooled / cached state survives) bounded-exhaustive configurations: full product 1-3 files x 6 sizes x slice{4,8} x blocks{1..9,17} with names in sub-directories; slice{4,8,12,64,2000} x blocks{1,2,3,7,8,15,16,17,100,101,127,128,300} x goroutines{1,2,3,5,16}; sizes around 16384; low-entropy classes; 257/300/4097/32768 slices; 32769 slices (refusal allowed). " +
+		Rule: "(plus the staged exported API behind Create: EVERY sequence of <=8 (thorough 9) operations from {LoadFileData, ComputeParityData, Write, replace input a by a shorter / longer / its original content, delete / restore input b} on ONE Encoder object (on the owned in-memory filesystem through a constructor hook; <=5 (thorough 7) operations also through the exported constructor on a real directory); a Write is judged iff the latest load attempt succeeded and a compute followed it - then it must succeed and the files must be a conformant set for the contents loaded last; LoadFileData must fail iff an input is missing; sequences are not merged by model state, since the point is state hidden in the object) (in addition, histories within one process: this Create preceded by a Create that fails at one of four stages - empty input, non-ASCII name, missing input, too many blocks - or by a successful Create of other inputs, or both, or by a Create over all-zero content with another slice size (judged inputs then low-entropy), with garbage collection off in between so that pooled / cached state survives) bounded-exhaustive configurations: full product 1-3 files x 6 sizes x slice{4,8} x blocks{1..9,17} with names in sub-directories; slice{4,8,12,64,2000} x blocks{1,2,3,7,8,15,16,17,100,101,127,128,300} x goroutines{1,2,3,5,16}; sizes around 16384; low-entropy classes; 257/300/4097/32768 slices; 32769 slices (refusal allowed). " +
 			"Every file Create writes is parsed by the strict reference reader and compared field by field with the reference set; every recovery block is recomputed. non-trivial = >=1 recovery file written",
 		Assumptions: []string{"file id hashes the name without padding; CRC32 stored little-endian; ids ordered as little-endian 128-bit integers (as par2cmdline reads the spec)"},
 		NewCase:     func() interface{} { return &c05Case{} },
